@@ -1457,8 +1457,9 @@ pub struct KnownKeyFlags {
     draft_decrypt_forwarded: bool,
     #[bits(1)]
     group: bool,
+    /// Flags that are not (yet) assigned: kept, so that a parsed subpacket is written back as is.
     #[bits(2)]
-    _padding1: u8,
+    unassigned1: u8,
 
     /// Non-standard Additional Decryption SubKey flag
     ///
@@ -1472,8 +1473,9 @@ pub struct KnownKeyFlags {
     adsk: bool,
     #[bits(1)]
     timestamping: bool,
+    /// Flags that are not (yet) assigned: kept, so that a parsed subpacket is written back as is.
     #[bits(4)]
-    _padding2: u8,
+    unassigned2: u8,
 }
 
 /// Features signature subpacket.
